@@ -14,3 +14,4 @@ INVARIANT LawObligations
 INVARIANT LawScenarioOcc
 INVARIANT LawScenarioStates
 INVARIANT LawScenarioFilters
+INVARIANT LawModify
